@@ -94,6 +94,9 @@ pub struct EnumM {
     pub id: String,
     pub variants: Vec<VariantM>,
     pub lt: bool,
+    /// `#[command(help_title = "..")]` on the enum (the heading of its command list; headings are not pinned by any oracle)
+    #[serde(default)]
+    pub help_title: Option<String>,
 }
 
 /// A `#[derive(CommandGroup)]` enum used as the type of a sub-command (`#[command(subcommand)] Dev(Dev<'a>)`)
@@ -577,6 +580,7 @@ impl Gen<'_> {
                 id: id.clone(),
                 variants,
                 lt: false,
+                help_title: if self.r.chance(15) { Some(self.r.pick(&["Led", "Сеть", "Base commands", "X"]).to_string()) } else { None },
             },
         );
         id
@@ -794,7 +798,11 @@ fn lt(b: bool) -> &'static str {
 
 fn emit_enum(en: &EnumM, enums: &BTreeMap<String, EnumM>, groups: &BTreeMap<String, SubGroupM>) -> String {
     let mut o = String::new();
-    o.push_str(&format!("#[derive(Debug, Command)]\npub enum {}{} {{\n", en.id, lt(en.lt)));
+    o.push_str("#[derive(Debug, Command)]\n");
+    if let Some(t) = &en.help_title {
+        o.push_str(&format!("#[command(help_title = \"{}\")]\n", t));
+    }
+    o.push_str(&format!("pub enum {}{} {{\n", en.id, lt(en.lt)));
     let subty = |s: &SubM| {
         let t = match groups.get(&s.enum_id) {
             Some(g) => format!("{}{}", g.id, lt(g.lt)),
